@@ -397,11 +397,27 @@ theorem g3_waitpid (st : St) (pid : Int) : G3 st (waitpid st pid).st := by
   · exact G3.refl st
 
 
+theorem g3_setNotify (st : St) (a : Nat) (n : Option Nat) : G3 st (setNotify st a n) := by
+  unfold setNotify
+  exact g3_setW st a { st.getW a with notify := n } rfl rfl
+
+theorem g3_linkNotified (r : St × Nat) (a : Nat) (flags : Nat) : G3 r.1 (linkNotified r a flags) := by
+  unfold linkNotified
+  exact ((g3_setNotify r.1 a (some r.2)).trans (g3_insertWatch _ _ _ _)).trans (g3_with_procs _ _)
+
+theorem g3_clearNotify (st : St) (a : Nat) : G3 st (clearNotify st a) := by
+  unfold clearNotify
+  split
+  · exact g3_setNotify st a none
+  · exact G3.refl _
+
 theorem g3_linkProcess (st : St) (a : Nat) (pid : Int) (flags : Nat) : G3 st (linkProcess st a pid flags) := by
   unfold linkProcess
   simp only []
   split
-  · exact ((g3_waitpid _ _).trans (g3_setWstatus _ _ _)).trans (g3_watchLater _ _ _ _)
+  · split
+    · exact (((g3_waitpid _ _).trans (g3_setWstatus _ _ _)).trans (g3_watchLater _ _ _ _)).trans (g3_linkNotified _ _ _)
+    · exact ((g3_waitpid _ _).trans (g3_setWstatus _ _ _)).trans (g3_watchLater _ _ _ _)
   · exact ((g3_waitpid _ _).trans (g3_insertWatch _ _ _ _)).trans (g3_with_procs _ _)
 
 
@@ -534,8 +550,8 @@ theorem g3_laterPre (st : St) (a : Nat) : G3 st (laterPre st a) := by
   · exact g3_setW _ a _ rfl rfl
   · exact G3.refl _
 
-theorem k_watchCancel (st : St) (a : Nat) : KStep st (watchCancel st a) := by
-  unfold watchCancel
+theorem k_watchCancel0 (st : St) (a : Nat) : KStep st (watchCancel0 st a) := by
+  unfold watchCancel0
   split
   · exact KStep.refl st
   · split
@@ -551,6 +567,14 @@ theorem k_watchCancel (st : St) (a : Nat) : KStep st (watchCancel st a) := by
           · rename_i hc
             have : a ∈ listOf st (st.getW a).type := by simpa using hc
             exact kstep_cancelFound st a this
+
+theorem k_watchCancel (st : St) (a : Nat) : KStep st (watchCancel st a) := by
+  unfold watchCancel
+  split
+  · split
+    · exact (k_watchCancel0 st a).trans (k_watchCancel0 _ _)
+    · exact k_watchCancel0 st a
+  · exact k_watchCancel0 st a
 
 theorem validSig_ne_zero (s : Int) (h : validSig s = true) : s ≠ 0 := by
   intro h0; subst h0; revert h; decide
@@ -778,7 +802,7 @@ theorem k_processNotify (st : St) (a : Nat) : KStep st (processNotify st a) := b
   unfold processNotify
   split
   · exact (g3_fail _ _).kstep
-  · exact k_invokeWatch _ _ _ _
+  · exact (g3_clearNotify _ _).kstep.trans (k_invokeWatch _ _ _ _)
 
 
 theorem k_laterCb (st : St) (a : Nat) : KStep st (laterCb st a) := by
